@@ -422,7 +422,6 @@ func ruleC16_6(c *Ctx) {
 	c.ok(R, "in_toto, internal/spiffe", "function literals with captured variables", 0, fmt.Sprintf("%d examined", n))
 }
 
-
 // R-C14-8 -------------------------------------------------------------------------------------------------------------
 
 func ruleC14_8(c *Ctx) {
